@@ -595,6 +595,48 @@ fn long_domains(rng: &mut Rng) -> Vec<Vec<u8>> {
     v.push(big);
     v.into_iter().map(|s| s.into_bytes()).collect()
 }
+
+/// "xn--" labels whose ASCII spelling itself needs mapping (so that the Punycode label is decoded on the slow,
+/// non-ASCII path): the Punycode form of one label per validity check (leading combining mark, ContextJ,
+/// bidi, hyphens, not NFC, deviation, disallowed, plain valid), with one character of the spelling replaced
+/// by its fullwidth compatibility form or its upper-case form, or an ignored code point inserted, at every
+/// position class (prefix, first payload characters, middle, last).
+fn respelled_xn() -> Vec<Vec<u8>> {
+    let sources: [&str; 22] = [
+        "\u{301}a", "a\u{301}", "\u{903}\u{915}", "\u{e9}", "b\u{fc}cher", "\u{4e2d}\u{6587}", "\u{915}\u{94d}\u{200d}", "a\u{200d}b", "\u{628}\u{200c}\u{628}",
+        "\u{5d0}a", "a\u{5d0}", "\u{5d0}1", "1\u{5d0}", "ab--\u{e9}", "-\u{e9}", "\u{e9}-", "e\u{301}", "\u{df}", "\u{3c2}a", "\u{378}a", "A\u{e9}", "xn--\u{e9}",
+    ];
+    let mut v: Vec<String> = Vec::new();
+    for src in sources {
+        let p = puny(src);
+        let cs: Vec<char> = p.chars().collect();
+        let n = cs.len();
+        let mut pos: Vec<usize> = vec![0, 1, 2, 3, 4, 5, n / 2, n.saturating_sub(2), n - 1];
+        pos.retain(|&i| i < n);
+        pos.dedup();
+        for &i in &pos {
+            let c = cs[i];
+            let mut variants: Vec<String> = Vec::new();
+            if ('!'..='~').contains(&c) {
+                variants.push(char::from_u32(0xFF00 + (c as u32 - 0x20)).unwrap().to_string());
+            }
+            if c.is_ascii_lowercase() {
+                variants.push(c.to_ascii_uppercase().to_string());
+            }
+            variants.push(format!("\u{ad}{}", c));
+            variants.push(format!("{}\u{200b}", c));
+            for w in variants {
+                let mut t: String = cs[..i].iter().collect();
+                t.push_str(&w);
+                t.extend(cs[i + 1..].iter());
+                v.push(t.clone());
+                v.push(format!("a.{}", t));
+            }
+        }
+        v.push(p);
+    }
+    v.into_iter().map(|s| s.into_bytes()).collect()
+}
 fn mutate_bytes(rng: &mut Rng, b: &[u8]) -> Vec<u8> {
     let mut v = b.to_vec();
     for _ in 0..1 + rng.below(3) {
@@ -760,6 +802,12 @@ fn run_corr(args: &Args) -> Report {
             compare(&mut drv, &mut rep, "long", &format!("vdl {} 1 {}", CFG, hexb(&d)));
             compare(&mut drv, &mut rep, "long", &format!("vdl {} 0 {}", CFG, hexb(&d)));
         }
+    }
+    for d in respelled_xn() {
+        compare(&mut drv, &mut rep, "xn-respelled", &format!("ta {} S c v {}", CFG, hexb(&d)));
+        compare(&mut drv, &mut rep, "xn-respelled", &format!("ta {} U a r {}", CFG, hexb(&d)));
+        compare(&mut drv, &mut rep, "xn-respelled", &format!("ui {} E a 1 {}", CFG, hexb(&d)));
+        compare(&mut drv, &mut rep, "xn-respelled", &format!("ui {} U f 2 {}", CFG, hexb(&d)));
     }
     // Known-class predicates: the Rust and the model versions agree
     for _ in 0..(if thorough { 4000 } else { 300 }) {
@@ -1149,6 +1197,9 @@ fn run_search(args: &Args) -> Report {
         try_input(&mut rep, s.as_bytes(), &mut rng);
     }
     for d in long_domains(&mut rng) {
+        try_input(&mut rep, &d, &mut rng);
+    }
+    for d in respelled_xn() {
         try_input(&mut rep, &d, &mut rng);
     }
     for _ in 0..6000 {
